@@ -310,6 +310,11 @@ func cloneExpr(expr Expression) Expression {
 			Label: expr.Label,
 			p:     expr.p,
 		}
+	case *LitMatcher:
+		return &LitMatcher{
+			posValue:   expr.posValue,
+			IgnoreCase: expr.IgnoreCase,
+		}
 	case *NotExpr:
 		return &NotExpr{
 			Expr: cloneExpr(expr.Expr),
@@ -325,6 +330,13 @@ func cloneExpr(expr Expression) Expression {
 		return &OneOrMoreExpr{
 			Expr: cloneExpr(expr.Expr),
 			p:    expr.p,
+		}
+	case *RecoveryExpr:
+		return &RecoveryExpr{
+			Expr:        cloneExpr(expr.Expr),
+			RecoverExpr: cloneExpr(expr.RecoverExpr),
+			Labels:      append([]FailureLabel{}, expr.Labels...),
+			p:           expr.p,
 		}
 	case *SeqExpr:
 		exprs := make([]Expression, 0, len(expr.Exprs))
